@@ -136,6 +136,7 @@ def scan_reads(ck, P, f, body, drain_st, scan, bname, qname, buf):
     fn = "parse_space_packets"
     it = new_interp(P); env = Env()
     it.peel_depth = 3
+    it.guarded_join = True
     names = {n.id for n in ast.walk(f.node) if isinstance(n, ast.Name)}
     env.vars[bname] = buf
     env.vars[qname] = sym("analysis_queue", ty=("list", "bytes"))
@@ -407,11 +408,65 @@ def scan_step(ck, P, f, body, drain_st, scan, bname, buf, idx, L):
     for e in frame["breaks"]:
         outcomes.append(("exit", e))
     nxt = ([b] if not b.dead else []) + frame.get("continued", [])
-    for e in nxt:
-        outcomes.append(("next", e))
+    # an iteration that leaves the loop runs on through the statements behind the loop to the function's return: what counts
+    # is the queue, the results and the returned value there (a tail may be re-queued behind the loop as well as inside it)
+    after = body[body.index(scan) + 1:]
+    finals = []
+    for kind, e in outcomes:
+        it2.log_exit_vars = True
+        it2.exit_vars = []
+        rets = []
+        e2 = e.clone()
+        it2.block(after, e2, f.module, f, rets)
+        d0 = len(it2.where)
+        vars_at = [v for d_, v in it2.exit_vars if d_ == d0]
+        if not e2.dead or len(vars_at) != len(rets) or not rets:
+            ck.unknown("P-MUST", fn, "every path behind the scan loop ends in a return", f"{len(rets)} returns, falls off the end: {not e2.dead}")
+            return
+        for (pc_, val_, _heap, facts_), vs_ in zip(rets, vars_at):
+            fe = Env()
+            fe.vars = dict(vs_)
+            fe.facts = list(facts_)
+            fe.pc = list(pc_)
+            fe.vars["$return"] = val_
+            finals.append(("exit", fe))
+    it2.log_exit_vars = False
+    outcomes = finals + [("next", e) for e in nxt]
     D.check_escape(ck, it2, fn + " [one iteration]", allowed=())
+    # ---- one spelling for positions and big-endian words: octets seen through slices become octets of the buffer, slice
+    # bounds and indices are written in linear normal form, (b[k] << 8) | b[k+1] becomes the unsigned word at k
+    from ..terms import mapterm
+    from ..linear import _be_field
+    base_facts = [binop(">=", idx, C(0))]
+
+    def pos(t):
+        return t if D.is_const(t, None) else D.lin_term(linearize(t))
+
+    def canon(t, facts):
+        if t is None:
+            return None
+        t = D.simplify(D.simplify(t, facts), facts)
+
+        def f_(x):
+            if x.k == "slice":
+                return T("slice", x.a[0], pos(x.a[1]), pos(x.a[2]), ty=x.ty)
+            if x.k == "idx" and x.a[0].k == "sym":
+                return T("idx", x.a[0], pos(x.a[1]), ty=x.ty)
+            if x.k == "op" and x.a[0] == "|":
+                w_ = _be_field(x)
+                if w_ is not None:
+                    return w_
+            return x
+        return mapterm(f_, mapterm(f_, t))
+    for _k, e in outcomes:
+        fs = list(base_facts) + list(e.facts)
+        e.facts = [canon(x, fs) for x in e.facts]
+        e.pc = [canon(x, fs) for x in e.pc]
+        for k_ in (iname, tname, qname, "$return"):
+            if k_ in e.vars:
+                e.vars[k_] = canon(e.vars[k_], fs)
     # ---- the registered-id test: every membership test of the iteration is `<id> in <table>`
-    W0 = T("unpacked", "!H", T("slice", buf, idx, binop("+", idx, C(2)), ty="bytes"), ty="int")
+    W0 = T("unpacked", "!H", T("slice", buf, pos(idx), pos(binop("+", idx, C(2))), ty="bytes"), ty="int")
     pid_ref = binop("&", W0, C(0x1FFF))
     atoms = {}
     for _k, e in outcomes:
@@ -441,17 +496,33 @@ def scan_step(ck, P, f, body, drain_st, scan, bname, buf, idx, L):
     ck.verdict("D-TABLE", fn, "registered ids are the raw() words of the given packet ids; one table", probs, show(table)[:80])
     ren = {}
     probs = []
+    hdr_facts = [binop(">=", idx, C(0)), binop("<=", binop("+", idx, C(6)), L)]
+
+    def unmask(t):
+        if t.k == "op" and t.a[0] == "&":
+            for p_, q_ in ((t.a[1], t.a[2]), (t.a[2], t.a[1])):
+                if q_.k == "const" and isinstance(q_.a[0], int):
+                    return p_, q_.a[0]
+        return t, None
+
     for x in ids_seen:
         if x == pid_ref:
             continue
         same = False
-        try:
-            ctx = BitCtx()
-            same = norm_bits(x, 16, ctx) == norm_bits(pid_ref, 16, ctx)
-        except Exception:
-            same = False
+        xs = D.simplify(D.simplify(x, hdr_facts), hdr_facts)       # octets seen through slices -> octets of the buffer
+        if xs == pid_ref:
+            same = True
         if not same:
-            st, m = D.prove([binop(">=", idx, C(0)), binop("<=", binop("+", idx, C(6)), L)], binop("==", x, pid_ref))
+            (xi, xm), (ri, rm) = unmask(xs), unmask(pid_ref)
+            same = xm is not None and xm == rm and linearize(xi).key() == linearize(ri).key()
+        if not same:
+            try:
+                ctx = BitCtx()
+                same = norm_bits(xs, ctx).bits[:16] == norm_bits(pid_ref, ctx).bits[:16]
+            except Exception:
+                same = False
+        if not same:
+            st, m = D.prove(hdr_facts, binop("==", xs, pid_ref))
             same = st == "proved"
         if same:
             ren[x] = pid_ref
@@ -469,7 +540,7 @@ def scan_step(ck, P, f, body, drain_st, scan, bname, buf, idx, L):
     def sub(t):
         return substitute(t, ren) if ren and t is not None else t
     # ---- reference quantities
-    W4 = T("unpacked", "!H", T("slice", buf, binop("+", idx, C(4)), binop("+", idx, C(6)), ty="bytes"), ty="int")
+    W4 = T("unpacked", "!H", T("slice", buf, pos(binop("+", idx, C(4))), pos(binop("+", idx, C(6))), ty="bytes"), ty="int")
     total = binop("+", W4, C(7))
     end = binop("+", idx, total)
     S = binop(">", binop("+", idx, C(6)), L)
@@ -535,7 +606,10 @@ def scan_step(ck, P, f, body, drain_st, scan, bname, buf, idx, L):
                     probs.append(f"[{case}] the queue is left as {show(qv)[:100]}; reference: empty")
                 if tv != tm0:
                     probs.append(f"[{case}] the results become {show(tv)[:100]} on an exit that found no complete packet")
-            verdict("P-MUST", f"exit: the queue is left holding exactly the unconsumed tail buf[idx:] (nothing when idx == len(buf)); no packet is added [exit under {where}]", probs, "queue == [buf[idx:]]")
+            rv = sub(e.vars.get("$return"))
+            if rv is None or resolve(rv, facts, {}) != resolve(tm, facts, {}):
+                probs.append(f"the function returns {show(rv)[:60] if rv is not None else 'nothing'}, not the result list")
+            verdict("P-MUST", f"exit: the queue is left holding exactly the unconsumed tail buf[idx:] (nothing when idx == len(buf)); no packet is added; the result list is returned [exit under {where}]", probs, "queue == [buf[idx:]]")
         else:
             n_next += 1
             st, m = D.prove(facts, notS)
@@ -568,14 +642,3 @@ def scan_step(ck, P, f, body, drain_st, scan, bname, buf, idx, L):
                     probs.append(f"the queue is changed: {show(qv)[:60]}")
                 verdict("X-PART", f"a position that is not a registered id is skipped by exactly one octet and nothing else changes [under {where}]", probs, "idx += 1")
     ck.verdict("P-MUST", fn, "the iteration has both kinds of outcome (leave the loop / continue)", [] if n_exit and n_next else [f"{n_exit} exits, {n_next} continuing paths"], f"{n_exit} exits, {n_next} continuing", nontrivial=False)
-    # ---- after the loop: the result list is returned
-    it3 = new_interp(P); it3.where.append(f.short)
-    e3 = head.clone()
-    rets = []
-    it3.quiet += 1
-    try:
-        it3.block(body[body.index(scan) + 1:], e3, f.module, f, rets)
-    finally:
-        it3.quiet -= 1
-    okr = bool(rets) and e3.dead and all(v == tm0 for _pc, v, _h, _f in rets)
-    ck.verdict("P-MUST", fn, "the packets found are returned (one list, in scan order)", [] if okr else ["the function does not return the result list after the scan"], f"return {tname}")
